@@ -171,9 +171,9 @@ def isRepoint (s : S) : Op → Bool
   | .setRef i (some _) => (s.instRef i).isSome
   | _ => false
 
+/-- the three bulk calls whose announcement lists interleave removals with implied disconnects -/
 def isBulk : Op → Bool
-  | .removeLibrariesFrom .. | .removeDefinitionsFrom .. | .removePortsFrom .. | .removeCablesFrom ..
-  | .removeChildrenFrom .. | .removePinsFrom .. | .removeWiresFrom .. | .disconnectFrom .. => true
+  | .removePortsFrom .. | .removePinsFrom .. | .disconnectFrom .. => true
   | _ => false
 
 end Spydr.IR
